@@ -47,7 +47,7 @@ type level struct {
 
 func plan(thorough bool) []level {
 	if thorough {
-		return []level{{menu: menuFull}, {menu: menuFull, mixed: true}, {menu: menuMini, miniOnly: true}, {menu: menuMini, miniOnly: true, maxSeedB: 30}}
+		return []level{{menu: menuFull}, {menu: menuFull, mixed: true}, {menu: menuMini, miniOnly: true, maxSeedB: 110}, {menu: menuMini, miniOnly: true, maxSeedB: 30}}
 	}
 	return []level{{menu: menuFull}, {menu: menuMini, miniOnly: true}}
 }
